@@ -13,7 +13,7 @@ from __future__ import annotations
 import ast
 
 from engine.effects import cached_functions, get_analyzer, is_fresh, mutable_globals
-from engine.loader import AnalysisError, src, walk_own
+from engine.loader import AnalysisError, dotted, src, walk_own
 from engine.reads import ReadAnalysis
 
 PID = "C15"
@@ -177,6 +177,47 @@ def check_key(prog, ctx):
     ctx.minimum(rid, 10, "6 plan dependencies + 5 hashed slots")
 
 
+def _built_here(f, name):
+    """'new' when every binding of the local `name` in f is an object allocated there without state (X.__new__(...)), 'copy' when some
+    binding is a shallow / deep copy (copy.copy, copy.deepcopy: slots - the memo included - start as the source's), None otherwise"""
+    kinds = set()
+    if not name.isidentifier() or name in f.params():
+        return None
+    for a in walk_own(f.node):
+        tg = []
+        if isinstance(a, ast.Assign):
+            tg = a.targets
+        elif isinstance(a, (ast.AnnAssign, ast.AugAssign, ast.NamedExpr)):
+            tg = [a.target]
+        elif isinstance(a, (ast.For, ast.comprehension)):
+            tg = [a.target]
+        elif isinstance(a, ast.withitem) and a.optional_vars is not None:
+            tg = [a.optional_vars]
+        for t in tg:
+            if any(isinstance(x, ast.Name) and x.id == name and isinstance(x.ctx, ast.Store) for x in ast.walk(t)):
+                v = getattr(a, "value", None)
+                if isinstance(t, ast.Name) and isinstance(a, ast.Assign) and isinstance(v, ast.Call):
+                    fn = v.func
+                    if isinstance(fn, ast.Attribute) and fn.attr == "__new__":
+                        kinds.add("new")
+                        continue
+                    if dotted(fn) in ("copy.copy", "copy.deepcopy", "copy", "deepcopy"):
+                        kinds.add("copy")
+                        continue
+                kinds.add(None)
+    if not kinds or None in kinds:
+        return None
+    return "copy" if "copy" in kinds else "new"
+
+
+def _resets_memo(f, name):
+    """f assigns None to <name>._hashkey on every path? - decided simply: a top-level statement of the body does it"""
+    for st in f.node.body:
+        if isinstance(st, ast.Assign) and any(src(t) == f"{name}.{MEMO_SLOT}" for t in st.targets) and src(st.value) == "None":
+            return True
+    return False
+
+
 def check_memo(prog, ctx):
     rid = "R15.2"
     hashed = {"_chargemap", "_dual", "_subinfo", "_extents", MEMO_SLOT}
@@ -198,6 +239,8 @@ def check_memo(prog, ctx):
                     continue
                 n += 1
                 recv = src(t.value)
+                in_init = f.name == "__init__" and f.cls is not None and recv == f.params()[0]
+                built = None if in_init else _built_here(f, recv)
                 if t.attr == MEMO_SLOT:
                     if f.name == "hashkey":
                         from engine.astutil import memo_dominated
@@ -205,25 +248,23 @@ def check_memo(prog, ctx):
                         ok = memo_dominated(f.node, node, MEMO_SLOT, f.params()[0])
                         ctx.check(ok, rid, f, node, src(node), "memo slot filled only under its own is-None guard")
                     else:
-                        ok = in_index_cls and f.name in ("__init__", "copy_with") and src(node.value) == "None" and (
-                            recv == f.params()[0] if f.name == "__init__" else recv == "new")
+                        ok = src(node.value) == "None" and (in_init or built is not None)
                         ctx.check(ok, rid, f, node, src(node),
                                   "memo slot reset to None on a newly built object (never copied from another object)")
                     continue
-                ok = in_index_cls and ((f.name == "__init__" and recv == f.params()[0]) or
-                                       (f.name == "copy_with" and recv == "new"))
+                ok = in_init or built == "new" or (built == "copy" and _resets_memo(f, recv))
                 ctx.check(ok, rid, f, node, src(node),
-                          f"hashed slot {t.attr} is assigned only while its object is being constructed")
-    # `new` in copy_with is a brand-new object
+                          f"hashed slot {t.attr} is assigned only while its object is being constructed" +
+                          (" (a shallow copy carries the source's memoised hash: it must be reset in the same function)" if built == "copy" else ""))
+    # copy_with hands out an object built in it, and never one that carries another object's memo
     for cname in INDEX_CLASSES:
         cw = prog.cls(cname).methods.get("copy_with")
         ctx.need(cw is not None, f"{cname}.copy_with vanished")
-        news = [a for a in walk_own(cw.node) if isinstance(a, ast.Assign) and src(a.targets[0]) == "new"]
-        ctx.check(len(news) == 1 and src(news[0].value) == "self.__new__(self.__class__)", rid, cw, cw.node, "new object",
-                  f"{cname}.copy_with builds a brand-new object")
-        resets = [a for a in walk_own(cw.node) if isinstance(a, ast.Assign) and src(a.targets[0]) == f"new.{MEMO_SLOT}"]
-        ctx.check(len(resets) == 1 and src(resets[0].value) == "None", rid, cw, cw.node, "memo reset",
-                  f"{cname}.copy_with resets the memoised hash")
+        rets = [r for r in walk_own(cw.node) if isinstance(r, ast.Return) and isinstance(r.value, ast.Name)]
+        kinds = {_built_here(cw, r.value.id) for r in rets}
+        ctx.check(bool(rets) and None not in kinds, rid, cw, cw.node, "new object", f"{cname}.copy_with builds a brand-new object")
+        ctx.check(all(k == "new" or _resets_memo(cw, r.value.id) for r, k in zip(rets, [_built_here(cw, r.value.id) for r in rets])),
+                  rid, cw, cw.node, "memo reset", f"{cname}.copy_with hands out an object whose memoised hash is empty")
     # containers behind hashed slots are never mutated (effect analysis)
     an = get_analyzer(prog)
     for f, effs in an.effects_by_func.items():
